@@ -39,7 +39,7 @@ Definition brushes_and_entities_copied : bool :=
 (* every function of instancing.py that mentions a module-level mutable object (collapse_one always), as a skeleton:
    decisions on such an object guard logging / updates of the object only, nothing else reads it *)
 Definition process_state_only_gates_logging : bool :=
-  forallb (fun f => gates_ok (snd f)) g_process_state_functions.
+  forallb (fun f => fn_ok (snd f)) g_process_state_functions.
 Definition collapse_one_skeleton_present : bool :=
   existsb (fun f => str_eqb (fst f) [99;111;108;108;97;112;115;101;95;111;110;101]%N) g_process_state_functions.
 
@@ -270,9 +270,23 @@ Theorem c17_process_state_gate_refuted :
   fst (run_many nat bool demo_sem [shape_guard_clause; shape_guard_clause] 0%nat false) = 1%nat /\
   fst (run_many nat bool demo_sem [shape_log_once; shape_log_once] 0%nat false) = 2%nat /\
   result nat bool (run nat bool demo_sem shape_guard_clause 0%nat false) <> result nat bool (run nat bool demo_sem shape_guard_clause 0%nat true).
-Proof.
-  split; [exact shape_guard_clause_rejected | split; [exact shape_log_once_ok | exact guard_clause_depends_on_history]].
-Qed.
+Proof. exact process_state_gate_refuted. Qed.
+
+(** A function of the module seen from its callers ([KCall]: `return` ends it, exceptions propagate; the skeleton of a
+    callee that touches the module-level state is inlined at the call, so the global state is threaded through helpers
+    and through collapse_all's loop of collapse_one calls): with [fn_ok] - every decision on the global state guards
+    quiet code, or the whole body is quiet up to bare `return`s - a call leaves the same program state and raises or
+    not independently of the global state.  This is the statement the obligation `process_state_only_gates_logging`
+    instantiates for every function of instancing.py that touches the module-level state, directly or through calls. *)
+Theorem c17_call_independent_of_process_state : forall (St G : Type) (m : sem St G) body, fn_ok body = true ->
+  forall s g1 g2, result St G (run St G m (KCall body) s g1) = result St G (run St G m (KCall body) s g2).
+Proof. exact call_noninterference. Qed.
+
+(** Helper shapes: `def warn_once(k): if k in SEEN: return; log; SEEN.add(k)` called before the store is accepted (and two
+    collapses write two keyvalues); a helper whose return value depends on SEEN, used by the caller to skip the store, is not. *)
+Theorem c17_process_state_helper_shapes : gates_ok shape_helper_log_once = true /\ gates_ok shape_helper_decides = false /\
+  fst (run_many nat bool demo_sem [shape_helper_log_once; shape_helper_log_once] 0%nat false) = 2%nat.
+Proof. exact shape_helpers. Qed.
 
 Local Open Scope nat_scope.
 (** *** collapse_all terminates: at most recur_limit rounds, then RecursionError; success iff the inclusion depth
